@@ -159,58 +159,86 @@ class Graph:
         return p
 
 
-def transition_tour(g, max_paths=None, max_steps=None, extend=64):
+def transition_tour(g, max_paths=None, max_steps=None):
     """Paths (lists of edge indices) from the initial state that together cover every edge
-    (or as many as the budgets allow).  Returns (paths, covered_edge_count)."""
+    (or as many as the budgets allow).  Each path walks from the initial state, takes an uncovered
+    edge whenever the current node has one and otherwise heads for the nearest node that still has
+    one (distance map by reverse BFS, refreshed as coverage grows), until nothing uncovered is
+    reachable any more.  Returns (paths, covered_edge_count, edge_count)."""
     par = g.bfs_parents()
-    uncovered = [True] * len(g.edges)
-    # self-loops cannot be told from stuttering by a replay and are left out of the criterion
-    n_unc = 0
+    n_edges = len(g.edges)
+    uncovered = [g.edges[i][0] in par for i in range(n_edges)]
+    total = sum(uncovered)
+    n_unc = total
+    rev = collections.defaultdict(list)
     for i, e in enumerate(g.edges):
-        if e[1] not in par and e[0] not in par:
-            uncovered[i] = False
-        else:
-            n_unc += 1
-    total = n_unc
+        rev[e[1]].append(e[0])
+
+    def dist_map():
+        dist = {}
+        dq = collections.deque()
+        for i, e in enumerate(g.edges):
+            if uncovered[i] and e[0] not in dist:
+                dist[e[0]] = 0
+                dq.append(e[0])
+        while dq:
+            v = dq.popleft()
+            for u in rev.get(v, ()):
+                if u not in dist:
+                    dist[u] = dist[v] + 1
+                    dq.append(u)
+        return dist
+
     paths = []
     steps = 0
-    # deepest-first order of start edges gives long prefixes that cover a lot on the way
-    depth = {}
-    for nid in par:
-        d = 0
-        x = nid
-        while par[x] is not None:
-            x = g.edges[par[x]][0]
-            d += 1
-            if x in depth:
-                d += depth[x]
-                break
-        depth[nid] = d
-    order = sorted(range(len(g.edges)), key=lambda i: -depth.get(g.edges[i][0], 0))
-    for ei in order:
-        if not uncovered[ei]:
-            continue
+    dist = dist_map()
+    since = 0
+    while n_unc > 0:
         if max_paths is not None and len(paths) >= max_paths:
             break
         if max_steps is not None and steps >= max_steps:
             break
-        p = g.path_to(par, g.edges[ei][0]) + [ei]
-        # extend greedily along uncovered edges
-        cur = g.edges[ei][1]
-        for _ in range(extend):
-            nxt = [x for x in g.out.get(cur, ()) if uncovered[x] and x != ei]
-            if not nxt:
-                break
-            p.append(nxt[0])
-            uncovered[nxt[0]] = False
-            n_unc -= 1
-            cur = g.edges[nxt[0]][1]
-        for x in p:
-            if uncovered[x]:
-                uncovered[x] = False
+        if since > max(20, total // 40):
+            dist = dist_map()
+            since = 0
+        cur = g.init
+        p = []
+        new = 0
+        seen_nodes = 0
+        while True:
+            outs = g.out.get(cur, ())
+            nxt = None
+            for x in outs:
+                if uncovered[x]:
+                    nxt = x
+                    break
+            if nxt is None:
+                best = None
+                for x in outs:
+                    d = dist.get(g.edges[x][1])
+                    if d is not None and (best is None or d < best[0]):
+                        best = (d, x)
+                if best is None:
+                    break
+                nxt = best[1]
+            else:
+                uncovered[nxt] = False
                 n_unc -= 1
+                new += 1
+            p.append(nxt)
+            cur = g.edges[nxt][1]
+            seen_nodes += 1
+            if seen_nodes > 5000:
+                break
+        if new == 0:
+            if since == 0:
+                break  # fresh map and still nothing new: the rest is unreachable
+            dist = dist_map()
+            since = 0
+            continue
         paths.append(p)
         steps += len(p)
+        since += new
     return paths, total - n_unc, total
 
 
@@ -617,7 +645,7 @@ class LockCheck:
         explored = []
         for tag, spec in specs:
             spec = dict(spec, seed=chk.seed, kind=self.lock)
-            spec.setdefault("max_secs", 12 if tier == "quick" else 150)
+            spec.setdefault("max_secs", 7 if tier == "quick" else 150)
             runs, info = self.explore(chk, bindir, spec, tag)
             explored.append({"tag": tag, "progs": spec["progs"], "preemption_bound": spec.get("preempt"), "runs": len(runs),
                              "complete_within_bound": info.get("complete"),
@@ -658,6 +686,10 @@ class LockCheck:
         end = [e for e in evs if e["ev"] == "stress_end"]
         if len(end) != 1:
             raise core.ToolError("stress run has no end event")
+        if end[0]["hang"] or end[0].get("panics"):
+            # the sections of the threads that never finished are missing: nothing but the hang can be judged
+            secs = []
+            evs = rest + end
         tr = os.path.join(chk.work, "stress.ndjson")
         core.write_ndjson(tr, rest + secs + end)
         res = core.run_tlc("SyncStress.tla", "SyncStress.cfg", workers=1, env={"TRACE": tr, "JAVA_TOOL_OPTIONS": JVM_OPTS},
